@@ -487,7 +487,14 @@ class BindStateBase:
         try:  # shield: wait_for() would cancel the future, which must take an exception
             await asyncio.wait_for(asyncio.shield(self._fut), timeout)
         except TimeoutError:
-            self._handle_wait_timer_expired(timeout)
+            if (
+                self._fut.done()
+                and not self._fut.cancelled()
+                and self._fut.exception() is None
+            ):  # the message arrived just as the wait ran out: it counts
+                self._set_context_state(self._next_ctx_state)
+            else:
+                self._handle_wait_timer_expired(timeout)
         else:
             self._set_context_state(self._next_ctx_state)
         result: Message = self._fut.result()  # may raise exception
